@@ -67,11 +67,14 @@ def farkas_fits(allrows, names, t, mu, lam_int):
     return big <= INT_MAX
 
 
-def cert(hyp, names, t):
-    """Certificate that hyp /\\ box => t (within 0.9 tol), or None."""
+def cert(hyp, names, t, exact_only=False):
+    """Certificate that hyp /\\ box => t (within 0.9 tol; exactly if exact_only), or None."""
     allrows = hyp + box_rows(names)
     tol = F(t["k"] + abs(t["c"]), 10000)
-    for which, bound in (("cert_exact", F(t["c"])), ("cert_tol", F(t["c"]) + tol * F(9, 10))):
+    tries = [("cert_exact", F(t["c"]))]
+    if not exact_only:
+        tries.append(("cert_tol", F(t["c"]) + tol * F(9, 10)))
+    for which, bound in tries:
         L = _solve_lambda(allrows, names, t["co"], bound)
         if L is None:
             continue
@@ -196,12 +199,50 @@ def case_key(cs):
     return ".".join(str(j) for j in cs) if cs else "-"
 
 
-def hint_guarded(base, comps, names, t):
+def flat_case_skip(comps, cs, skip):
+    out = []
+    for i, (c, j) in enumerate(zip(comps, cs)):
+        if i == skip:
+            continue
+        if j == 0:
+            out += c["a"] + c["g"]
+        else:
+            out.append(neg_row(c["a"][j - 1]))
+    return out
+
+
+def empty_case(base, comps, names, cs, cache):
+    """Exact certificate that the strict case is empty: the other hypotheses imply the broken row."""
+    key = tuple(cs)
+    if cache is not None and key in cache:
+        return cache[key]
+    out = None
+    for i, j in enumerate(cs):
+        if j == 0:
+            continue
+        h = cert(base + flat_case_skip(comps, cs, i), names, comps[i]["a"][j - 1], exact_only=True)
+        if h is not None:
+            h["kind"] = "empty"
+            h["d"] = i + 1
+            out = h
+            break
+    if cache is not None:
+        cache[key] = out
+    return out
+
+
+def hint_guarded(base, comps, names, t, cache=None):
     """Hint for  base /\\ AND (A_i => G_i) /\\ box => t : one certificate per case, else a witness."""
     cases = {}
     missing = False
     for cs in all_cases(comps):
-        h = cert(base + flat_case(comps, cs), names, t)
+        h = None
+        if cache is not None and cache.get(tuple(cs)) is not None:
+            h = cache[tuple(cs)]
+        if h is None:
+            h = cert(base + flat_case(comps, cs), names, t)
+        if h is None:
+            h = empty_case(base, comps, names, cs, cache)
         if h is None:
             missing = True
             break
@@ -212,7 +253,7 @@ def hint_guarded(base, comps, names, t):
     if w is not None:
         return {"wit": w, "cases": {}}
     STATS["none"] += 1
-    return {"wit": dict(NONE), "cases": {case_key(cs): strip(h) for cs, h in cases.items()}}
+    return {"wit": dict(NONE), "cases": {}}
 
 
 def strip_guarded(h):
@@ -223,7 +264,7 @@ def hint_kind(h):
     if "wit" in h:
         if h["wit"]["kind"] == "witness":
             return "witness"
-        return "cert" if h["cases"] and all(v["kind"] == "cert" for v in h["cases"].values()) else "none"
+        return "cert" if h["cases"] and all(v["kind"] in ("cert", "empty") for v in h["cases"].values()) else "none"
     return h["kind"]
 
 
